@@ -281,8 +281,13 @@ fn index_sets(r: &mut Rng, thorough: bool) -> Vec<Vec<u32>> {
     let span = [100u64, 70000, 1 << 20, 1 << 32][k % 4];
     sets.push((0..n).map(|_| r.below(span) as u32).collect());
   }
+  // serialised forms beyond 32 KiB (more than one inflate buffer): dense, array-container and block-sparse
+  sets.push((0..100_000).map(|i| i * 7).collect());
+  sets.push((0..5 * 32768).map(|i| i * 2).collect());
+  sets.push((0..17_000).map(|i| i * 4099).collect());
   if thorough {
-    sets.push((0..100_000).map(|i| i * 7).collect());
+    sets.push((0..4000u32).map(|i| i * 65536 + (i % 7)).collect());
+    sets.push((0..400_000).map(|i| i * 3 + 1).collect());
   }
   sets
 }
@@ -291,9 +296,6 @@ pub fn gen(thorough: bool, seed: u64, out: &mut impl Write) {
   let mut r = Rng::new(seed ^ 0xC06);
   let ty = hex(b"RevocationBitmap2022");
   for is in index_sets(&mut r, thorough) {
-    if is.len() > 3000 && !thorough {
-      continue;
-    }
     let b = bitmap_of(&is);
     let data = endpoint_data(&b);
     let z = b64_strict(data.as_bytes()).unwrap();
